@@ -10,7 +10,7 @@ R-DEFORDER dimensions are defined before variables; variable definitions before 
 """
 import ast
 
-from ..engine import AnalysisError, dotted, iter_stmts, norm, walk_expr, const_str, kw
+from ..engine import parent_chain, AnalysisError, dotted, iter_stmts, norm, walk_expr, const_str, kw
 from ..prov import Prov
 from ..report import Finding
 from .. import api
@@ -206,6 +206,28 @@ def run(ctx):
                                       'carry the same value/type as the source' % (what, norm(d)[:70])))
         else:
             ctx.ok('R-VERBATIM', '%s:%s' % (qn, nm), w4, '%s passed through unchanged (only the bool->int8 fallback inside except TypeError)' % what)
+    # ---- R-CONVSTEPS: convert runs its three stages unconditionally (not under the verbosity switch or any other option)
+    ctx.rule('R-CONVSTEPS', 'convert calls addDimensions, addGlobalProperties and addVariables as top-level statements')
+    cv = mod.func('Pseudo2NetCDF.convert')
+    for step in ('addDimensions', 'addGlobalProperties', 'addVariables'):
+        top = [st for st in cv.body if isinstance(st, ast.Expr) and isinstance(st.value, ast.Call) and dotted(st.value.func) == 'self.' + step]
+        anyw = [c for c in ast.walk(cv) if isinstance(c, ast.Call) and dotted(c.func) == 'self.' + step]
+        if top:
+            ctx.ok('R-CONVSTEPS', step, 'src/PseudoNetCDF/%s Pseudo2NetCDF.convert' % RP, 'top-level call')
+        elif anyw:
+            guard = [p_ for p_ in parent_chain(api.stmt_of(anyw[0])) if isinstance(p_, ast.If)]
+            ctx.violation(Finding('R-CONVSTEPS', RP, 'Pseudo2NetCDF.convert', api.stmt_of(anyw[0]), '%s runs only under `%s`: with that option off the saved file has no %s' % (
+                step, norm(guard[0].test) if guard else '?', {'addDimensions': 'dimensions', 'addGlobalProperties': 'global attributes', 'addVariables': 'variables'}[step])), oid=step)
+        else:
+            ctx.violation(Finding('R-CONVSTEPS', RP, 'Pseudo2NetCDF.convert', cv.body[-1], 'convert no longer calls %s' % step), oid=step)
+    # ---- R-AUTOSCALE: the library's automatic mask/scale conversion of the destination stays on while data are written
+    ctx.rule('R-AUTOSCALE', 'the converter never switches off automatic mask/scale conversion of the destination (packed variables are packed on write)')
+    offs = [c for q5, f5 in mod.functions.items() for c in ast.walk(f5) if isinstance(c, ast.Call) and isinstance(c.func, ast.Attribute) and c.func.attr in ('set_auto_maskandscale', 'set_auto_scale', 'set_auto_mask')
+            and c.args and isinstance(c.args[0], ast.Constant) and c.args[0].value is False]
+    if offs:
+        ctx.violation(Finding('R-AUTOSCALE', RP, 'Pseudo2NetCDF', api.stmt_of(offs[0]), '%s: variables that carry scale_factor/add_offset are then stored unpacked-as-raw, and come back changed on reading' % norm(offs[0])))
+    else:
+        ctx.ok('R-AUTOSCALE', 'pncgen.py', 'src/PseudoNetCDF/%s' % RP, 'no set_auto_*(False)')
     # ---- R-PARAMUSED: every option the converter accepts is read (a requested flavour/mode that is not forwarded silently becomes the default)
     ctx.rule('R-PARAMUSED', 'every parameter of the converter functions is read in the body (options are forwarded, not dropped)')
     npu = 0
@@ -251,6 +273,11 @@ def run(ctx):
         p, events, nsink, bad = _qmut_scan(ctx, mod, qn, f2, 'self', ['pfile'], [], False)
         nq += 1
         ctx.rule('R-QMUT', 'the converter writes neither its source file nor its own class-level state')
+        from ..prov import is_maybe_input
+        for ev in events:
+            if ev.kind == 'mutator-call' and ev.extra in ('close',) and ev.base[0] == 'FILE' and is_maybe_input(ev.base[1]):
+                ctx.violation(Finding('R-QMUT', RP, qn, ev.stmt, 'the converter closes %s, which is the caller\'s own open file whenever an object (not a path) was passed in: the caller\'s handle is dead after a save, and '
+                                      'closing it again hits whatever file has reused the id' % norm(ev.stmt)[:30]), oid='%s:close' % qn)
         if bad:
             for ev in bad:
                 ctx.violation(Finding('R-QMUT', RP, qn, ev.stmt, 'the converter writes %s of %s (%s)' % (
